@@ -1,0 +1,47 @@
+//go:build verif
+
+// Contracts for package eventlog, checked by /verif (govc). Comment-only; compiled only under -tags verif.
+// rdLeft[r] is the number of bytes still available from reader r (ghost reader model, /verif/stubs/io.spec).
+package eventlog
+
+//@ func sizeValue
+//@   requires (!istype(size, *byte) || dyn(size, *byte) != nil) && (!istype(size, *uint32) || dyn(size, *uint32) != nil)
+//@   assigns nothing
+//@   sweep[C07]
+//@   ensures[C07] err == nil ==> 0 <= result0 && result0 <= 4294967295
+
+//@ func readExactly
+//@   requires r != nil && rdLeft[ref(r)] >= 0 && n >= 0
+//@   assigns nothing
+//@   modifies rdLeft
+//@   sweep[C07]
+//@   alloc 2 * (old(rdLeft)[ref(r)] - rdLeft[ref(r)]) + 512
+//@   ensures[C07,C18] rdLeft[ref(r)] >= 0 && rdLeft[ref(r)] <= old(rdLeft)[ref(r)] && forall(x, Int, x != ref(r) ==> rdLeft[x] == old(rdLeft)[x])
+//@   ensures[C07,C18] err == nil ==> len(result0) == n && rdLeft[ref(r)] == old(rdLeft)[ref(r)] - n
+//@   ensures[C18] err == nil && n > 0 ==> result0 != nil && fresh(result0)
+
+//@ func readSizedArray
+//@   requires r != nil && rdLeft[ref(r)] >= 0 && data != nil
+//@   requires (!istype(size, *byte) || dyn(size, *byte) != nil) && (!istype(size, *uint32) || dyn(size, *uint32) != nil)
+//@   modifies rdLeft
+//@   sweep[C07]
+//@   alloc 2 * (old(rdLeft)[ref(r)] - rdLeft[ref(r)]) + 512
+//@   ensures[C07,C18] rdLeft[ref(r)] >= 0 && rdLeft[ref(r)] <= old(rdLeft)[ref(r)] && forall(x, Int, x != ref(r) ==> rdLeft[x] == old(rdLeft)[x])
+//@   ensures[C18] err == nil ==> old(rdLeft)[ref(r)] - rdLeft[ref(r)] >= len(*data) + 1
+
+//@ func (*TaggedDigest).Unmarshal
+//@   requires d != nil && r != nil && rdLeft[ref(r)] >= 0
+//@   requires forall(k, uint16, has(tpmAlgoSize, k) ==> 0 <= tpmAlgoSize[k] && tpmAlgoSize[k] <= 64)
+//@   modifies rdLeft
+//@   sweep[C07]
+//@   alloc 64
+//@   ensures[C07] rdLeft[ref(r)] >= 0 && rdLeft[ref(r)] <= old(rdLeft)[ref(r)] && forall(x, Int, x != ref(r) ==> rdLeft[x] == old(rdLeft)[x])
+//@   ensures[C07,C18] err == nil ==> rdLeft[ref(r)] <= old(rdLeft)[ref(r)] - 2
+
+//@ func (*TCGEventData).Unmarshal
+//@   requires d != nil && r != nil && rdLeft[ref(r)] >= 0
+//@   modifies rdLeft
+//@   alloc 2 * (old(rdLeft)[ref(r)] - rdLeft[ref(r)]) + 1024
+//@   sweep[C07] nil index slice div makeslice typeassert panic
+//@   ensures[C07] rdLeft[ref(r)] >= 0 && rdLeft[ref(r)] <= old(rdLeft)[ref(r)]
+//@   ensures[C07,C18] err == nil ==> rdLeft[ref(r)] <= old(rdLeft)[ref(r)] - 4
